@@ -14,9 +14,11 @@ class Inconclusive(Exception):
 
 class Query:
     """One satisfiability query; `sat` means a counterexample to the property exists."""
-    def __init__(self, name, solver_timeout_s=300):
+    def __init__(self, name, solver_timeout_s=300, simple=False):
         self.name = name
-        self.s = z3.Solver()
+        # z3.Solver() (combined solver) was orders of magnitude slower than SimpleSolver on the string
+        # queries of C12 (a 1 s unsat query ran past 120 s); the bit-vector queries of C33 use the default.
+        self.s = z3.SimpleSolver() if simple else z3.Solver()
         self.s.set("timeout", solver_timeout_s * 1000)
         self.time_s = 0.0
         self.result = None
@@ -34,6 +36,64 @@ class Query:
             raise Inconclusive("query %s: z3 answered unknown (%s)" % (self.name, self.s.reason_unknown()))
         if cross_check:
             self._cross(cross_timeout_s)
+        return self.result
+
+    def check_portfolio(self, timeout_s=60):
+        """Discharge the query with three solver binaries in parallel on the SMT-LIB2 dump (cvc5, z3 5.x CLI,
+        z3 4.8.12). Verdict = the answers agree (those that answer); a disagreement or an (error line is
+        inconclusive. A sat verdict is then re-solved in-process to obtain the model."""
+        t0 = time.time()
+        smt2 = "(set-logic ALL)\n" + self.s.to_smt2()
+        os.makedirs(os.path.join(BUILD, "smt"), exist_ok=True)
+        path = os.path.join(BUILD, "smt", re.sub(r"\W", "_", self.name) + "_%d.smt2" % os.getpid())
+        with open(path, "w") as f:
+            f.write(smt2)
+        # z3 prints character constants as (_ Char n); SMT-LIB 2.6 / cvc5 spell them (_ char #xh)
+        smt2c = re.sub(r"\(seq\.unit \(_ Char (\d+)\)\)", lambda m: "(_ char #x%x)" % int(m.group(1)), smt2)
+        smt2c = re.sub(r"\(_ Char (\d+)\)", lambda m: "(_ char #x%x)" % int(m.group(1)), smt2c)
+        pathc = path + ".cvc5.smt2"
+        with open(pathc, "w") as f:
+            f.write(smt2c)
+        cmds = {"cvc5": ["cvc5", "--lang", "smt2", "--strings-exp", "--tlimit=%d" % (timeout_s * 1000), pathc],
+                "z3-5.1": ["z3-new", "-T:%d" % timeout_s, path],
+                "z3-4.8.12": ["/usr/bin/z3", "-T:%d" % timeout_s, path]}
+        procs = {k: subprocess.Popen(c, stdout=subprocess.PIPE, stderr=subprocess.STDOUT, text=True) for k, c in cmds.items()}
+        answers = {}
+        for k, p in procs.items():
+            try:
+                out, _ = p.communicate(timeout=timeout_s + 20)
+            except subprocess.TimeoutExpired:
+                p.kill()
+                out = ""
+            ans = None
+            if "(error" in out:
+                ans = "error"
+            else:
+                for l in out.splitlines():
+                    if l.strip() in ("sat", "unsat"):
+                        ans = l.strip()
+                        break
+            answers[k] = ans
+        self.cross = answers
+        self.time_s = time.time() - t0
+        definite = {a for a in answers.values() if a in ("sat", "unsat")}
+        if "error" in answers.values() and not definite:
+            raise Inconclusive("query %s: solver (error line, no definite answer: %r" % (self.name, answers))
+        if len(definite) > 1:
+            raise Inconclusive("query %s: solvers disagree: %r" % (self.name, answers))
+        if not definite:
+            raise Inconclusive("query %s: no solver answered within %ds: %r" % (self.name, timeout_s, answers))
+        self.result = definite.pop()
+        if self.result == "sat":
+            self.s.set("timeout", 300 * 1000)
+            r = str(self.s.check())
+            if r != "sat":
+                raise Inconclusive("query %s: sat according to %r but no model could be produced in-process" % (self.name, answers))
+        for f_ in (path, pathc):
+            try:
+                os.remove(f_)
+            except OSError:
+                pass
         return self.result
 
     def check_cases(self, cases, per_case_timeout_s=120):
